@@ -75,6 +75,11 @@ func (fc *FnCtx) oblig(kind, text string, goal Term, pos token.Pos) *Obligation 
 	if fc.inline && (kind == "post") {
 		return nil
 	}
+	if kind == "nil" && fc.root().con != nil && fc.root().con.NoNil {
+		// `nonil` contract: nil-dereference freedom is assumed for this function (listed in the evidence)
+		fc.assume(goal)
+		return nil
+	}
 	text = strings.Join(strings.Fields(text), " ")
 	if len(text) > 90 {
 		text = text[:90]
